@@ -90,6 +90,21 @@ Qed.
 
 (* ------------------------------------------------------------------ step 3 *)
 
+Lemma contains_other_spec : forall V j R k,
+  contains_other V j k R = true <->
+  exists i, i < length R /\ k + i <> j /\ contains_sorted V (nth i R []) = true.
+Proof.
+  intros V j. induction R as [|Rk R IH]; intro k; simpl.
+  - split; [discriminate | intros [i [Hi _]]; lia].
+  - rewrite orb_true_iff, andb_true_iff, negb_true_iff, Nat.eqb_neq, IH. split.
+    + intros [[H1 H2] | [i [Hi [Hne Hc]]]].
+      * exists 0. split; [lia|]. split; [lia | exact H2].
+      * exists (S i). split; [lia|]. split; [lia | exact Hc].
+    + intros [[|i] [Hi [Hne Hc]]].
+      * left. split; [lia | exact Hc].
+      * right. exists i. split; [lia|]. split; [lia | exact Hc].
+Qed.
+
 Section Step3.
 Variable R0 : list (list nat).
 Hypothesis R0_nd : NoDup R0.
@@ -97,16 +112,403 @@ Hypothesis R0_ss : forall x, In x R0 -> sset x.
 
 Definition minimalR (x : list nat) : Prop := In x R0 /\ forall y, In y R0 -> incl y x -> y = x.
 
+Lemma min_dec : forall y, In y R0 -> minimalR y \/ exists z, In z R0 /\ incl z y /\ z <> y.
+Proof.
+  intros y Hy.
+  destruct (existsb (fun z => contains_sorted y z && negb (if list_eq_dec Nat.eq_dec z y then true else false)) R0) eqn:E.
+  - right. apply existsb_exists in E. destruct E as [z [Hz Ht]]. apply andb_true_iff in Ht. destruct Ht as [H1 H2].
+    exists z. split; [exact Hz|]. split.
+    + apply (contains_sorted_spec y z (R0_ss y Hy) (R0_ss z Hz)). exact H1.
+    + destruct (list_eq_dec Nat.eq_dec z y); [discriminate | assumption].
+  - left. split; [exact Hy|]. intros z Hz Hzy.
+    destruct (list_eq_dec Nat.eq_dec z y) as [Ezy | Hne]; [exact Ezy | exfalso].
+    assert (Ht : existsb (fun z => contains_sorted y z && negb (if list_eq_dec Nat.eq_dec z y then true else false)) R0 = true).
+    { apply existsb_exists. exists z. split; [exact Hz|]. apply andb_true_iff. split.
+      - apply (contains_sorted_spec y z (R0_ss y Hy) (R0_ss z Hz)). exact Hzy.
+      - destruct (list_eq_dec Nat.eq_dec z y); [contradiction | reflexivity]. }
+    congruence.
+Qed.
+
 Lemma minimal_below : forall n y, length y <= n -> In y R0 -> exists y', minimalR y' /\ incl y' y.
 Proof.
   induction n as [|n IH]; intros y Hn Hy.
   - exists y. split; [|apply incl_refl]. split; [exact Hy|]. intros z Hz Hzy.
     destruct (list_eq_dec Nat.eq_dec z y) as [E | Hne]; [exact E | exfalso].
     pose proof (incl_sset_neq z y (R0_ss z Hz) (R0_ss y Hy) Hzy Hne). lia.
-  - destruct (classic_min y Hy) as [Hm | [z [Hz [Hzy Hne]]]].
+  - destruct (min_dec y Hy) as [Hm | [z [Hz [Hzy Hne]]]].
     + exists y. split; [exact Hm | apply incl_refl].
     + pose proof (incl_sset_neq z y (R0_ss z Hz) (R0_ss y Hy) Hzy Hne) as Hlt.
       destruct (IH z ltac:(lia) Hz) as [y' [Hy' Hy'z]]. exists y'. split; [exact Hy'|].
       intros w Hw. apply Hzy. apply Hy'z. exact Hw.
 Qed.
+
+(* the loop: positions >= j hold minimal members; every minimal member is still present *)
+Record s3inv (j : nat) (Rc : list (list nat)) : Prop := {
+  s3_j : j <= length Rc;
+  s3_nd : NoDup Rc;
+  s3_sub : incl Rc R0;
+  s3_min : forall x, minimalR x -> In x Rc;
+  s3_done : forall i, j <= i -> i < length Rc -> minimalR (nth i Rc [])
+}.
+
+Lemma swap_remove_In : forall (Rc : list (list nat)) j x, j < length Rc -> NoDup Rc ->
+  (In x (removelast (upd Rc j (last Rc []))) <-> In x Rc /\ x <> nth j Rc []).
+Proof.
+  intros Rc j x Hj Hnd.
+  assert (Hne : Rc <> []) by (destruct Rc; [simpl in Hj; lia | discriminate]).
+  set (U := upd Rc j (last Rc [])).
+  assert (HUl : length U = length Rc) by apply updA_length.
+  assert (Hlast : last Rc [] = nth (length Rc - 1) Rc []).
+  { destruct (exists_last Hne) as [l' [a ->]]. rewrite last_last, app_length. simpl.
+    replace (length l' + 1 - 1) with (length l') by lia. rewrite app_nth2 by lia. rewrite Nat.sub_diag. reflexivity. }
+  rewrite (In_nth_iff _ (removelast U) x []), removelast_length, HUl. split.
+  - intros [i [Hi Ei]]. rewrite nth_removelast in Ei by (rewrite HUl; exact Hi).
+    destruct (Nat.eq_dec i j) as [-> | Hij].
+    + unfold U in Ei. rewrite nth_updA_same in Ei by exact Hj. subst x. split.
+      * rewrite Hlast. apply nth_In. lia.
+      * rewrite Hlast. intro E. apply (proj1 (NoDup_nth Rc []) Hnd) in E; lia.
+    + unfold U in Ei. rewrite nth_updA_other in Ei by exact Hij. subst x. split.
+      * apply nth_In. lia.
+      * intro E. apply (proj1 (NoDup_nth Rc []) Hnd) in E; lia.
+  - intros [Hx Hxj]. destruct (In_nth Rc x [] Hx) as [i [Hi Ei]].
+    destruct (Nat.eq_dec i (length Rc - 1)) as [Eil | Hil].
+    + (* x is the last entry: it now sits at position j *)
+      exists j. assert (Hjl : j <> length Rc - 1) by (intros ->; subst i; congruence).
+      split; [lia|]. rewrite nth_removelast by (rewrite HUl; lia).
+      unfold U. rewrite nth_updA_same by exact Hj. rewrite Hlast, <- Eil. exact Ei.
+    + exists i. assert (Hij : i <> j) by (intros ->; congruence).
+      split; [lia|]. rewrite nth_removelast by (rewrite HUl; lia).
+      unfold U. rewrite nth_updA_other by exact Hij. exact Ei.
+Qed.
+
+Lemma swap_remove_nth : forall (Rc : list (list nat)) j i, j < length Rc -> i < length Rc - 1 ->
+  nth i (removelast (upd Rc j (last Rc []))) [] = if i =? j then last Rc [] else nth i Rc [].
+Proof.
+  intros Rc j i Hj Hi. rewrite nth_removelast by (rewrite updA_length; exact Hi).
+  destruct (Nat.eqb_spec i j) as [-> | Hij]; [apply nth_updA_same; exact Hj | apply nth_updA_other; exact Hij].
+Qed.
+
+Lemma swap_remove_NoDup : forall (Rc : list (list nat)) j, j < length Rc -> NoDup Rc ->
+  NoDup (removelast (upd Rc j (last Rc []))).
+Proof.
+  intros Rc j Hj Hnd.
+  assert (Hne : Rc <> []) by (destruct Rc; [simpl in Hj; lia | discriminate]).
+  assert (Hlast : last Rc [] = nth (length Rc - 1) Rc []).
+  { destruct (exists_last Hne) as [l' [a ->]]. rewrite last_last, app_length. simpl.
+    replace (length l' + 1 - 1) with (length l') by lia. rewrite app_nth2 by lia. rewrite Nat.sub_diag. reflexivity. }
+  apply (proj2 (NoDup_nth _ [])). intros a b Ha Hb E.
+  rewrite removelast_length, updA_length in Ha, Hb.
+  rewrite !swap_remove_nth in E by assumption.
+  destruct (Nat.eqb_spec a j) as [-> | Haj]; destruct (Nat.eqb_spec b j) as [-> | Hbj]; try reflexivity.
+  - rewrite Hlast in E. apply (proj1 (NoDup_nth Rc []) Hnd) in E; lia.
+  - rewrite Hlast in E. apply (proj1 (NoDup_nth Rc []) Hnd) in E; lia.
+  - apply (proj1 (NoDup_nth Rc []) Hnd) in E; lia.
+Qed.
+
+Lemma step3_loop : forall j Rc, s3inv j Rc ->
+  exists R', gibbs_step3 j Rc = Some R' /\ s3inv 0 R'.
+Proof.
+  induction j as [|j IH]; intros Rc H.
+  - exists Rc. split; [reflexivity | exact H].
+  - destruct H as [Hj Hnd Hsub Hmin Hdone]. cbn [gibbs_step3].
+    rewrite (nth_error_nthA _ Rc j []) by lia.
+    set (V := nth j Rc []).
+    assert (HV : In V Rc) by (apply nth_In; lia).
+    assert (HVs : sset V) by (apply R0_ss, Hsub, HV).
+    destruct (contains_other V j 0 Rc) eqn:Eco.
+    + (* V contains another member: it is not minimal and is removed *)
+      apply contains_other_spec in Eco. destruct Eco as [i [Hi [Hne Hc]]]. simpl in Hne.
+      assert (Hiy : In (nth i Rc []) Rc) by (apply nth_In; exact Hi).
+      apply (contains_sorted_spec V _ HVs (R0_ss _ (Hsub _ Hiy))) in Hc.
+      assert (Hnm : ~ minimalR V).
+      { intros [_ Hm]. specialize (Hm _ (Hsub _ Hiy) Hc). apply (proj1 (NoDup_nth Rc []) Hnd) in Hm; lia. }
+      rewrite (nth_error_nthA _ Rc (length Rc - 1) []) by lia.
+      assert (Hlast : nth (length Rc - 1) Rc [] = last Rc []).
+      { assert (Hne' : Rc <> []) by (destruct Rc; [simpl in Hj; lia | discriminate]).
+        destruct (exists_last Hne') as [l' [a ->]]. rewrite last_last, app_length. simpl.
+        replace (length l' + 1 - 1) with (length l') by lia. rewrite app_nth2 by lia. rewrite Nat.sub_diag. reflexivity. }
+      rewrite Hlast. apply IH. constructor.
+      * rewrite removelast_length, updA_length. lia.
+      * apply swap_remove_NoDup; [lia | exact Hnd].
+      * intros x Hx. apply swap_remove_In in Hx; [|lia | exact Hnd]. apply Hsub. apply Hx.
+      * intros x Hx. apply swap_remove_In; [lia | exact Hnd|]. split; [apply Hmin; exact Hx|].
+        intro E. apply Hnm. fold V in E. rewrite <- E. exact Hx.
+      * intros a Ha Hal. rewrite removelast_length, updA_length in Hal.
+        rewrite swap_remove_nth by lia. destruct (Nat.eqb_spec a j) as [-> | Haj].
+        -- rewrite <- Hlast. apply Hdone; lia.
+        -- apply Hdone; lia.
+    + (* no other member inside V: V is minimal *)
+      assert (HVm : minimalR V).
+      { split; [apply Hsub; exact HV|]. intros y Hy HyV.
+        destruct (list_eq_dec Nat.eq_dec y V) as [E | Hne]; [exact E | exfalso].
+        destruct (minimal_below (length y) y (le_n _) Hy) as [y' [Hy'm Hy'y]].
+        assert (Hy'V : incl y' V) by (intros w Hw; apply HyV, Hy'y, Hw).
+        assert (Hy'ne : y' <> V).
+        { intros ->. apply Hne. apply sset_ext; [apply R0_ss; exact Hy | exact HVs|].
+          intro w. split; [apply HyV | apply Hy'y]. }
+        pose proof (Hmin y' Hy'm) as Hy'in. destruct (In_nth Rc y' [] Hy'in) as [i [Hi Ei]].
+        assert (Ht : contains_other V j 0 Rc = true).
+        { apply contains_other_spec. exists i. split; [exact Hi|]. split.
+          - simpl. intros ->. apply Hy'ne. symmetry. exact Ei.
+          - rewrite Ei. apply (contains_sorted_spec V y' HVs (R0_ss _ (proj1 Hy'm))). exact Hy'V. }
+        congruence. }
+      apply IH. constructor; try assumption; [lia|].
+      intros a Ha Hal. destruct (Nat.eq_dec a j) as [-> | Haj]; [exact HVm | apply Hdone; lia].
+Qed.
+
+Lemma step3_spec :
+  exists R', gibbs_step3 (length R0) R0 = Some R' /\ NoDup R' /\ forall x, In x R' <-> minimalR x.
+Proof.
+  destruct (step3_loop (length R0) R0) as [R' [H1 H2]].
+  - constructor; [lia | exact R0_nd | apply incl_refl | intros x [Hx _]; exact Hx | intros i H1 H2; lia].
+  - exists R'. split; [exact H1|]. split; [apply (s3_nd _ _ H2)|]. intro x. split.
+    + intro Hx. destruct (In_nth R' x [] Hx) as [i [Hi <-]]. apply (s3_done _ _ H2); [lia | exact Hi].
+    + apply (s3_min _ _ H2).
+Qed.
+
 End Step3.
+
+(* ------------------------------------------------------------------ the rounds *)
+
+Section Gibbs.
+Variables Zc circ : list nat -> Prop.
+Variable fs : list (list nat).
+Variable es : list nat.
+
+Hypothesis HZs : forall F, Zc F -> sset F.
+Hypothesis HZx : forall A B, Zc A -> Zc B -> Zc (xor_sorted A B).
+Hypothesis HZc : forall F, Zc F -> F <> [] -> exists C, circ C /\ incl C F.
+Hypothesis HcZ : forall C, circ C -> Zc C /\ C <> [].
+Hypothesis Hmin : forall C F, circ C -> Zc F -> F <> [] -> incl F C -> F = C.
+Hypothesis Hlen : length es = length fs.
+Hypothesis Hfc : forall j, j < length fs -> circ (nth j fs []).
+Hypothesis Hpriv : forall i j, i < length fs -> j < length fs -> (In (nth i es 0) (nth j fs []) <-> i = j).
+Hypothesis Htree : forall F, Zc F -> F <> [] -> exists j, j < length fs /\ In (nth j es 0) F.
+
+Let k := length fs.
+
+(* no private element with index >= i *)
+Definition below (i : nat) (F : list nat) : Prop := forall j, i <= j -> j < k -> ~ In (nth j es 0) F.
+
+Definition Qspec (i : nat) (Q : list (list nat)) : Prop :=
+  NoDup Q /\ forall F, In F Q <-> Zc F /\ F <> [] /\ below i F.
+Definition Sspec (i : nat) (St : list (list nat)) : Prop :=
+  NoDup St /\ forall C, In C St <-> circ C /\ below i C.
+
+(* a circuit through a given element *)
+Lemma circuit_through : forall n F e, length F <= n -> Zc F -> In e F ->
+  exists y, circ y /\ incl y F /\ In e y.
+Proof.
+  induction n as [|n IH]; intros F e Hn HF He.
+  - destruct F; [destruct He | simpl in Hn; lia].
+  - assert (Hne : F <> []) by (intros ->; destruct He).
+    destruct (HZc F HF Hne) as [C [HC HCF]].
+    destruct (in_dec Nat.eq_dec e C) as [HeC | HeC]; [exists C; tauto|].
+    destruct (HcZ C HC) as [HCz HCne].
+    pose proof (HZs F HF) as HFs. pose proof (HZs C HCz) as HCs.
+    set (F' := xor_sorted F C).
+    assert (HF'in : forall z, In z F' <-> In z F /\ ~ In z C).
+    { intro z. unfold F'. rewrite xor_In by assumption. split; [|tauto].
+      intros [H | [H1 H2]]; [exact H | exfalso; apply H2, HCF, H1]. }
+    assert (HF'lt : length F' < length F).
+    { destruct C as [|c C']; [contradiction|].
+      apply (incl_sset_length_lt F' F c).
+      - apply sset_NoDup. apply xor_sset; assumption.
+      - intros z Hz. apply HF'in in Hz. tauto.
+      - apply HCF. left; reflexivity.
+      - intro H. apply HF'in in H. apply (proj2 H). left; reflexivity. }
+    destruct (IH F' e ltac:(lia) (HZx F C HF HCz)) as [y [Hy1 [Hy2 Hy3]]].
+    + apply HF'in. split; assumption.
+    + exists y. split; [exact Hy1|]. split; [|exact Hy3]. intros z Hz. apply Hy2, HF'in in Hz. tauto.
+Qed.
+
+Lemma below_mono : forall i j F, i <= j -> below i F -> below j F.
+Proof. intros i j F Hij H a Ha Hak. apply H; lia. Qed.
+
+Lemma NoDup_app3 : forall (A : Type) (l1 l2 l3 : list A), NoDup l1 -> NoDup l2 -> NoDup l3 ->
+  (forall x, In x l1 -> In x l2 -> False) -> (forall x, In x l1 -> In x l3 -> False) ->
+  (forall x, In x l2 -> In x l3 -> False) -> NoDup (l1 ++ l2 ++ l3).
+Proof.
+  intros A l1 l2 l3 H1 H2 H3 D12 D13 D23. apply nodup_app; [exact H1 | apply nodup_app; assumption|].
+  intros x Hx1 Hx. apply in_app_iff in Hx. destruct Hx as [Hx | Hx]; [exact (D12 x Hx1 Hx) | exact (D13 x Hx1 Hx)].
+Qed.
+
+(* one round: f = fs[i], e = es[i] *)
+Lemma gibbs_round : forall i St Q, i < k -> Qspec i Q -> Sspec i St ->
+  let f := nth i fs [] in
+  exists R', (let '(R, Q') := gibbs_step2 Q f [] Q in
+              match gibbs_step3 (length R) R with Some R' => Some (R', Q') | None => None end)
+             = Some (R', Q ++ map (fun t => xor_sorted t f) Q) /\
+    Sspec (S i) (St ++ R' ++ [f]) /\ Qspec (S i) ((Q ++ map (fun t => xor_sorted t f) Q) ++ [f]).
+Proof.
+  intros i St Q Hi [HQnd HQ] [HSnd HS] f.
+  set (e := nth i es 0).
+  assert (Hfcirc : circ f) by (apply Hfc; exact Hi).
+  destruct (HcZ f Hfcirc) as [HfZ Hfne].
+  pose proof (HZs f HfZ) as Hfs.
+  assert (Hef : In e f) by (apply (Hpriv i i Hi Hi); reflexivity).
+  assert (Hfbelow : below (S i) f).
+  { intros j Hj Hjk Hin. apply (Hpriv j i Hjk Hi) in Hin. lia. }
+  assert (HQe : forall t, In t Q -> ~ In e t) by (intros t Ht; apply (proj2 (proj2 (proj1 (HQ t) Ht)) i (le_n _) Hi)).
+  assert (HQs : forall t, In t Q -> sset t) by (intros t Ht; apply HZs, (HQ t), Ht).
+  assert (Hxe : forall t, In t Q -> In e (xor_sorted t f)).
+  { intros t Ht. apply xor_In; [apply HQs; exact Ht | exact Hfs|]. right. split; [exact Hef | apply HQe; exact Ht]. }
+  assert (Hxinj : forall t t', In t Q -> In t' Q -> xor_sorted t f = xor_sorted t' f -> t = t').
+  { intros t t' Ht Ht' E. rewrite <- (xor_invol t f (HQs t Ht) Hfs), E. apply xor_invol; [apply HQs; exact Ht' | exact Hfs]. }
+  assert (Hxnf : forall t, In t Q -> xor_sorted t f <> f).
+  { intros t Ht E. assert (t = []).
+    { rewrite <- (xor_invol t f (HQs t Ht) Hfs), E. apply xor_self. exact Hfs. }
+    subst t. apply (proj1 (proj2 (proj1 (HQ []) Ht))). reflexivity. }
+  (* membership in the new part of Q *)
+  assert (Hnew : forall F, Zc F -> In e F -> below (S i) F ->
+            F = f \/ exists t, In t Q /\ F = xor_sorted t f).
+  { intros F HF HeF HbF. pose proof (HZs F HF) as HFs.
+    destruct (list_eq_dec Nat.eq_dec (xor_sorted F f) []) as [E | Hne].
+    - left. rewrite <- (xor_invol F f HFs Hfs), E. reflexivity.
+    - right. exists (xor_sorted F f). split; [|symmetry; apply xor_invol; assumption].
+      apply HQ. split; [apply HZx; assumption|]. split; [exact Hne|].
+      intros j Hj Hjk Hin. apply xor_In in Hin; [|assumption|assumption].
+      destruct (Nat.eq_dec j i) as [-> | Hji].
+      + fold e in Hin. tauto.
+      + destruct Hin as [[Hin _] | [Hin _]]; [apply (HbF j); [lia | exact Hjk | exact Hin]|].
+        apply (Hpriv j i Hjk Hi) in Hin. contradiction. }
+  (* step 2 *)
+  rewrite gibbs_step2_eq. cbn [app].
+  set (R := map (fun t => xor_sorted t f) (filter (overlaps f) Q)).
+  assert (HRin : forall x, In x R <-> exists t, In t Q /\ x = xor_sorted t f /\ exists z, In z t /\ In z f).
+  { intro x. unfold R. rewrite in_map_iff. split.
+    - intros [t [<- Ht]]. apply filter_In in Ht. destruct Ht as [Ht Ho]. exists t. split; [exact Ht|]. split; [reflexivity|].
+      unfold overlaps in Ho. apply negb_true_iff, Nat.eqb_neq in Ho.
+      destruct (existsb (fun z => memb z f) t) eqn:Ex.
+      + apply existsb_exists in Ex. destruct Ex as [z [Hz1 Hz2]]. exists z. split; [exact Hz1 | apply memb_In; exact Hz2].
+      + exfalso. apply Ho. apply xor_disjoint_length; [apply HQs; exact Ht | exact Hfs|].
+        intros z Hz1 Hz2. assert (existsb (fun z => memb z f) t = true) by (apply existsb_exists; exists z; split; [exact Hz1 | apply memb_In; exact Hz2]).
+        congruence.
+    - intros [t [Ht [-> [z [Hz1 Hz2]]]]]. exists t. split; [reflexivity|]. apply filter_In. split; [exact Ht|].
+      unfold overlaps. apply negb_true_iff, Nat.eqb_neq. intro E.
+      exact (proj1 (xor_disjoint_length t f (HQs t Ht) Hfs) E z Hz1 Hz2). }
+  assert (HRnd : NoDup R).
+  { unfold R. apply NoDup_map_inj_in; [|apply NoDup_filter; exact HQnd].
+    intros a b Ha Hb. apply filter_In in Ha, Hb. apply Hxinj; tauto. }
+  assert (HRZ : forall x, In x R -> Zc x /\ x <> [] /\ In e x /\ below (S i) x).
+  { intros x Hx. apply HRin in Hx. destruct Hx as [t [Ht [-> _]]].
+    destruct (proj1 (HQ t) Ht) as [HtZ [_ Htb]].
+    split; [apply HZx; assumption|]. split; [intro E; pose proof (Hxe t Ht) as H; rewrite E in H; destruct H|].
+    split; [apply Hxe; exact Ht|].
+    intros j Hj Hjk Hin. apply xor_In in Hin; [|apply HQs; exact Ht | exact Hfs].
+    destruct Hin as [[Hin _] | [Hin _]]; [apply (Htb j); [lia | exact Hjk | exact Hin] | apply (Hfbelow j Hj Hjk Hin)]. }
+  assert (HRs : forall x, In x R -> sset x) by (intros x Hx; apply HZs, (HRZ x Hx)).
+  destruct (step3_spec R HRnd HRs) as [R' [Hs3 [HR'nd HR']]].
+  exists R'. split; [rewrite Hs3; reflexivity|].
+  (* what survives step 3: the circuits through e other than f *)
+  assert (HR'c : forall C, In C R' <-> circ C /\ In e C /\ below (S i) C /\ C <> f).
+  { intro C. rewrite HR'. split.
+    - intros [HCR HCmin]. destruct (HRZ C HCR) as [HCZ [HCne [HeC HCb]]].
+      destruct (circuit_through (length C) C e (le_n _) HCZ HeC) as [y [Hy1 [Hy2 Hy3]]].
+      assert (Hyb : below (S i) y) by (intros j Hj Hjk Hin; apply (HCb j Hj Hjk); apply Hy2; exact Hin).
+      assert (HCf : C <> f).
+      { intros ->. apply HRin in HCR. destruct HCR as [t [Ht [E _]]]. apply (Hxnf t Ht). symmetry. exact E. }
+      split; [|tauto].
+      destruct (Hnew y (proj1 (HcZ y Hy1)) Hy3 Hyb) as [-> | [t [Ht Ey]]].
+      + (* f inside C = xor t' f: then t' and f are disjoint, but C is in R *)
+        exfalso. apply HRin in HCR. destruct HCR as [t' [Ht' [-> [z [Hz1 Hz2]]]]].
+        specialize (Hy2 z Hz2). apply xor_In in Hy2; [|apply HQs; exact Ht' | exact Hfs]. tauto.
+      + (* y = xor t f is a circuit in R inside C: equal to C by minimality *)
+        assert (HyR : In y R).
+        { apply HRin. exists t. split; [exact Ht|]. split; [exact Ey|].
+          destruct (existsb (fun z => memb z f) t) eqn:Ex.
+          - apply existsb_exists in Ex. destruct Ex as [z [Hz1 Hz2]]. exists z. split; [exact Hz1 | apply memb_In; exact Hz2].
+          - exfalso. (* t and f disjoint: f is inside y, so y = f *)
+            assert (Hfy : incl f y).
+            { intros z Hz. rewrite Ey. apply xor_In; [apply HQs; exact Ht | exact Hfs|]. right. split; [exact Hz|].
+              intro Hzt. assert (existsb (fun z => memb z f) t = true) by (apply existsb_exists; exists z; split; [exact Hzt | apply memb_In; exact Hz]).
+              congruence. }
+            pose proof (Hmin y f Hy1 HfZ Hfne Hfy) as E. apply (Hxnf t Ht). rewrite <- Ey. symmetry. exact E. }
+        rewrite <- (HCmin y HyR Hy2). exact Hy1.
+    - intros [HC [HeC [HCb HCf]]]. destruct (HcZ C HC) as [HCZ HCne].
+      destruct (Hnew C HCZ HeC HCb) as [-> | [t [Ht EC]]]; [contradiction|].
+      assert (HCR : In C R).
+      { apply HRin. exists t. split; [exact Ht|]. split; [exact EC|].
+        destruct (existsb (fun z => memb z f) t) eqn:Ex.
+        - apply existsb_exists in Ex. destruct Ex as [z [Hz1 Hz2]]. exists z. split; [exact Hz1 | apply memb_In; exact Hz2].
+        - exfalso. assert (HfC : incl f C).
+          { intros z Hz. rewrite EC. apply xor_In; [apply HQs; exact Ht | exact Hfs|]. right. split; [exact Hz|].
+            intro Hzt. assert (existsb (fun z => memb z f) t = true) by (apply existsb_exists; exists z; split; [exact Hzt | apply memb_In; exact Hz]).
+            congruence. }
+          apply HCf. symmetry. apply (Hmin C f HC HfZ Hfne HfC). }
+      split; [exact HCR|]. intros y Hy HyC. destruct (HRZ y Hy) as [HyZ [Hyne _]].
+      apply (Hmin C y HC HyZ Hyne HyC). }
+  split.
+  - (* S *)
+    split.
+    + apply NoDup_app3; [exact HSnd | exact HR'nd | constructor; [intros [] | constructor] | | |].
+      * intros x Hx1 Hx2. apply HS in Hx1. apply HR'c in Hx2. apply (proj2 Hx1 i (le_n _) Hi). apply Hx2.
+      * intros x Hx1 [<- | []]. apply HS in Hx1. apply (proj2 Hx1 i (le_n _) Hi). exact Hef.
+      * intros x Hx1 [<- | []]. apply HR'c in Hx1. apply Hx1. reflexivity.
+    + intro C. rewrite !in_app_iff, HS, HR'c. cbn [In]. split.
+      * intros [[H1 H2] | [[H1 [H2 [H3 H4]]] | [<- | []]]].
+        -- split; [exact H1 | apply (below_mono i); [lia | exact H2]].
+        -- split; assumption.
+        -- split; assumption.
+      * intros [H1 H2]. destruct (in_dec Nat.eq_dec e C) as [HeC | HeC].
+        -- destruct (list_eq_dec Nat.eq_dec C f) as [-> | Hne]; [right; right; left; reflexivity|].
+           right. left. tauto.
+        -- left. split; [exact H1|]. intros j Hj Hjk. destruct (Nat.eq_dec j i) as [-> | Hji]; [exact HeC | apply H2; lia].
+  - (* Q *)
+    split.
+    + rewrite <- app_assoc. apply NoDup_app3; [exact HQnd | | constructor; [intros [] | constructor] | | |].
+      * apply NoDup_map_inj_in; [exact Hxinj | exact HQnd].
+      * intros x Hx1 Hx2. apply in_map_iff in Hx2. destruct Hx2 as [t [<- Ht]]. apply (HQe _ Hx1). apply Hxe. exact Ht.
+      * intros x Hx1 [<- | []]. apply (HQe _ Hx1). exact Hef.
+      * intros x Hx1 [<- | []]. apply in_map_iff in Hx1. destruct Hx1 as [t [E Ht]]. apply (Hxnf t Ht). exact E.
+    + intro F. rewrite !in_app_iff, in_map_iff, HQ. cbn [In]. split.
+      * intros [[[H1 [H2 H3]] | [t [<- Ht]]] | [<- | []]].
+        -- split; [exact H1|]. split; [exact H2 | apply (below_mono i); [lia | exact H3]].
+        -- destruct (proj1 (HQ t) Ht) as [HtZ [_ Htb]].
+           split; [apply HZx; assumption|]. split; [intro E; pose proof (Hxe t Ht) as H; rewrite E in H; destruct H|].
+           intros j Hj Hjk Hin. apply xor_In in Hin; [|apply HQs; exact Ht | exact Hfs].
+           destruct Hin as [[Hin _] | [Hin _]]; [apply (Htb j); [lia | exact Hjk | exact Hin] | apply (Hfbelow j Hj Hjk Hin)].
+        -- split; [exact HfZ|]. split; [exact Hfne | exact Hfbelow].
+      * intros [H1 [H2 H3]]. destruct (in_dec Nat.eq_dec e F) as [HeF | HeF].
+        -- destruct (Hnew F H1 HeF H3) as [-> | [t [Ht ->]]]; [right; left; reflexivity|].
+           left. right. exists t. split; [reflexivity | exact Ht].
+        -- left. left. split; [exact H1|]. split; [exact H2|].
+           intros j Hj Hjk. destruct (Nat.eq_dec j i) as [-> | Hji]; [exact HeF | apply H3; lia].
+Qed.
+
+Lemma gibbs_rounds_from : forall m i St Q, i + m = k -> Qspec i Q -> Sspec i St ->
+  exists S', gibbs_rounds (skipn i fs) St Q = Some S' /\ Sspec k S'.
+Proof.
+  induction m as [|m IH]; intros i St Q Him HQ HS.
+  - assert (i = k) by lia. subst i. unfold k. rewrite skipn_all. exists St. split; [reflexivity | exact HS].
+  - assert (Hi : i < k) by lia.
+    assert (Esk : skipn i fs = nth i fs [] :: skipn (S i) fs).
+    { clear - Hi. unfold k in Hi. revert i Hi. induction fs as [|a l IHl]; intros i Hi; [simpl in Hi; lia|].
+      destruct i; [reflexivity|]. simpl. apply IHl. simpl in Hi. lia. }
+    rewrite Esk. cbn [gibbs_rounds].
+    destruct (gibbs_round i St Q Hi HQ HS) as [R' [Hr [HS' HQ']]]. cbv zeta in Hr.
+    destruct (gibbs_step2 Q (nth i fs []) [] Q) as [R Q'] eqn:E2.
+    destruct (gibbs_step3 (length R) R) as [R''|] eqn:E3; [|discriminate].
+    injection Hr as -> ->.
+    apply (IH (S i)); [lia | exact HQ' | exact HS'].
+Qed.
+
+(* Gibbs' algorithm on the fundamental cycles: a duplicate-free list of exactly the circuits *)
+Theorem gibbs_correct :
+  exists S', gibbs_rounds fs [] [] = Some S' /\ NoDup S' /\ forall C, In C S' <-> circ C.
+Proof.
+  destruct (gibbs_rounds_from k 0 [] []) as [S' [H1 [H2 H3]]].
+  - lia.
+  - split; [constructor|]. intro F. split; [intros []|]. intros [H1 [H2 H3]].
+    destruct (Htree F H1 H2) as [j [Hj Hin]]. exact (H3 j (Nat.le_0_l _) Hj Hin).
+  - split; [constructor|]. intro C. split; [intros []|]. intros [H1 H3].
+    destruct (HcZ C H1) as [HZ Hne]. destruct (Htree C HZ Hne) as [j [Hj Hin]]. exact (H3 j (Nat.le_0_l _) Hj Hin).
+  - exists S'. split; [exact H1|]. split; [exact H2|]. intro C. rewrite H3. split; [tauto|].
+    intro HC. split; [exact HC|]. intros j Hj Hjk. lia.
+Qed.
+
+End Gibbs.
+
+(* the first round of the code is the general round started from nothing *)
+Lemma gibbs_rounds_first : forall f0 fs, gibbs_rounds (f0 :: fs) [] [] = gibbs_rounds fs [f0] [f0].
+Proof. reflexivity. Qed.
